@@ -79,10 +79,13 @@ def gen(ctx):
         for g in C.enum_graphs(n, C.ADMG_STATES_CYC + [("U",), ("U", "D>"), ("U", "B")]):
             i += 1
             yield {"g": g, "fam": fams[i % 5], "src": "exh%d" % n}
+    keep = 1.0      # all 46656 four-node graphs in both tiers
     for g in C.enum_graphs(4, C.ADMG_STATES):
+        if keep < 1.0 and rng.random() > keep:
+            continue
         i += 1
-        yield {"g": g, "fam": ("int", "bigint", "str", "tuple")[i % 4], "src": "exh4"}
-    N = 3000 if tier == "quick" else 60000
+        yield {"g": g, "fam": ("int", "bigint", "str", "tuple")[i % 4], "src": "exh4" if keep == 1.0 else "smp4"}
+    N = 4000 if tier == "quick" else 150000
     for j in range(N):
         n = rng.choice((5, 5, 5, 6)) if tier == "quick" else rng.choice((5, 5, 6, 6, 7))
         k = rng.random()
@@ -93,15 +96,17 @@ def gen(ctx):
                 g = make_ancestral(g)
         elif k < 0.7:
             g = C.rand_dag_order_graph(rng, n, C.ADMG_STATES[1:], density=dens)
-        elif k < 0.8:
+        elif k < 0.78:
             g = C.rand_graph(rng, n, C.ADMG_STATES_CYC, density=dens)
-        elif k < 0.9:   # undirected-edge stream (rejection clause)
+        elif k < 0.86:  # undirected-edge stream (rejection clause)
             g = C.rand_dag_order_graph(rng, n, [("D>",), ("B",), ("U",)], density=dens)
             if not g["U"]:
                 a, b = rng.sample(range(n), 2)
                 g["U"].append([a, b])
-        else:           # primitive-inducing-path shapes: collider chain a <-> c1 <-> ... <-> b with ci -> a or b
+        elif k < 0.91:  # primitive-inducing-path shapes: collider chain a <-> c1 <-> ... <-> b with ci -> a or b
             g = chain_shape(rng, n)
+        else:           # the same with cross edges among the colliders: many routes enter a collider through a tail first
+            g = chain_shape(rng, max(n, 6), cross=True)
         if j % 3 == 0:
             g = C.shuffled_graph(rng, g)
         i += 1
@@ -130,10 +135,10 @@ def make_ancestral(g):
     return h
 
 
-def chain_shape(rng, n):
+def chain_shape(rng, n, cross=False):
     nodes = list(range(n))
     rng.shuffle(nodes)
-    k = rng.randint(3, n)
+    k = rng.randint(3, n) if not cross else n
     ch = nodes[:k]
     g = C.g_new(n)
     a, b = ch[0], ch[-1]
@@ -145,6 +150,15 @@ def chain_shape(rng, n):
             g["D"].append([c, a])
         elif r < 0.9:
             g["D"].append([c, b])
+    if cross:
+        inner = ch[1:-1]
+        for i in range(len(inner)):
+            for j in range(i + 1, len(inner)):
+                r = rng.random()
+                if r < 0.3:
+                    g["D"].append([inner[i], inner[j]])
+                elif r < 0.5 and abs(i - j) > 1:
+                    g["B"].append([inner[i], inner[j]])
     for v in nodes[k:]:
         if rng.random() < 0.5:
             g["D"].append([v, rng.choice(ch)])
@@ -212,7 +226,7 @@ def run(ctx):
         bad += eval_chunk(ctx, ch)
         if sum(1 for _, v in bad if v[0] == "violation") > 50:
             break
-    ev.extra["exhaustive_part"] = "all graphs on <=4 nodes over the listed pair states"
+    ev.extra["exhaustive_part"] = "all graphs on <=3 nodes and all 46656 graphs on 4 nodes over the listed pair states"
     if bad:
         seen = set()
         drv = C.Driver()
@@ -235,7 +249,10 @@ def run(ctx):
 
 
 def replay(ctx, payload):
-    case = payload["case"]
+    case = payload.get("case") or payload.get("correspondence", {}).get("case")
+    if case is None:
+        print("nothing to replay: the payload names theorems only:", payload.get("theorems_not_checking"))
+        return 0
     drv = C.Driver()
     got = impl(case)
     a = drv.ask(line(case))
